@@ -32,6 +32,61 @@ claim('C35', 'E2', 'complete enumeration of every precomputed partition count, t
       'Complete: every bundled partition count x every cluster size up to it, every tag; slots distinct, equal to an independent CRC16 implementation, per-node counts differ by at most one.',
       'Two slot-allocation models (even split and redis-cli --cluster create) stand in for a real cluster.')
 
+E1_NOTE = 'One node (Memory broker/presence), 1-2 connections, 2-3 concurrent operations; scheduling points are lock/atomic/channel/timer operations plus harness doubles; verification-build constants (lock tables) shrunk; Redis paths not executed.'
+def e1(i, what, text):
+    claim(i, 'E1', 'stateless DFS over thread interleavings of the real Node/Client/Hub code under a controlled scheduler (preemption + timer-first + environment-answer deviations bounded, HB-state caching): ' + what, text, E1_NOTE)
+e1('C04', 'client/server subscribe, unsubscribe, disconnect with sync/async callbacks and the 5 s wait gate', 'Every interleaving up to the bound of the listed operation threads on one connection; after settling a marker publication must reach the connection iff it reports itself subscribed, and the hub must hold exactly one generation-matched routing entry iff subscribed.')
+e1('C05', 'close (Disconnect / Node.Disconnect / transport close) placed at every point of subscribe, server-side subscribe, presence tick', 'Every close point within the bound; after settling the node must hold no hub, routing, presence or client-state entry of the closed connection and the connection/subscription gauges must be back to their earlier values.')
+e1('C06', 'presence ticks against subscribe/unsubscribe/close', 'Every interleaving within the bound; at quiescence the channel presence contains the connection iff it holds a subscription with presence, and presence stats count distinct clients/users.')
+e1('C07', 'subscribe completion against unsubscribe/disconnect, observed by a second subscriber', 'Every interleaving within the bound; the observer\'s join/leave pushes for the actor must alternate starting with join, end consistently with the final subscription state, and match the number of established/ended subscriptions.')
+e1('C08', 'connect, alive ticks, unsubscribe, server disconnect, transport close', 'Every interleaving within the bound; the callback log must show disconnect at most once and after connect, no alive after disconnect and one unsubscribe callback per established subscription that ended. Node shutdown and the HTTP handlers are not yet covered.')
+e1('C10', 'publications / joins of other connections against subscribe and unsubscribe (client and server side, positioned and not)', 'Every interleaving within the bound; on the connection\'s frame log no publication/join/leave for the channel may appear outside a subscription bracket. Per-channel batching variants are not yet covered.')
+claim('C02', 'E2', 'exhaustive enumeration of channel histories (publish/remove/TTL/meta-TTL over a virtual clock, depth-bounded) x subscribe probes on the real Node against a reference log',
+      'Every history up to the stated depth is built on a real node under the virtual clock and probed with every (offset, epoch, limit, filter, reject flag) combination; recovered=true must mean the exact admitted suffix, recovered=false no publications.',
+      'One channel, Memory broker, histories of depth <= 4-5, HistorySize 1-3.')
+claim('C03', 'E2', 'exhaustive enumeration of channel histories x cache-recovery probes (client and server-forced, cache-empty handler variants, delta) on the real Node against a reference log',
+      'Every history up to the stated depth x every probe; at most one publication (unless delta), it is the newest both filters admit, recovered exactly when the newest publication is in history or the client holds the position.',
+      'One channel, Memory broker, depth <= 4-5.')
+claim('C43', 'E2', 'exhaustive enumeration of histories x history-command parameters and of presence membership configurations on the real client command handlers',
+      'Every history (depth <= 3-4) x since x limit x reverse x HistoryMaxPublicationLimit; replies must respect the limit, equal Node.History for the effective filter, reject reverse with since offset 0; presence/presence_stats replies equal the node-level results for all 125 membership configurations.',
+      'Memory broker / presence manager only.')
+claim('C09', 'E2+E1', 'exhaustive enumeration of command sequences (length <= 3-4 over 15 methods x ids, JSON and Protobuf, command and frame entry points, malformed frames) on the real dispatch code; async handler completions explored by the scheduler',
+      'Every command sequence up to the stated length through HandleCommand / HandleReadFrame; before connect any other command must close with bad request without handler invocations, every id gets exactly one reply unless closed, unsolicited pong closes.',
+      'Handlers complete synchronously except in the async variants (bound 1-2).')
+claim('C17', 'E2', 'exhaustive enumeration of operation histories (publish/history/remove/advance over a virtual clock, depth-bounded, 1-2 channels) on the real Memory broker against a slice + top + epoch model',
+      'Every history up to depth 4-6 (8 for the small alphabet) with all since/limit/reverse probes at the end; offsets, history content, top and epoch must match the model; expiry instants are constrained only as far as the statement fixes them.',
+      'Bare MemoryBroker (no Node); TTL tolerance set model where calls ask for different TTLs.')
+claim('C19', 'E2', 'exhaustive enumeration of publish histories (idempotency keys x versions incl. 2^53+1 x version epochs x result-TTL expiry) on the real Memory stream broker and Memory map broker against the stated rule',
+      'Every history up to depth 3-6; verdict, suppress reason, returned position, handler calls, history and map state after every step must match the reference rule.',
+      'Memory brokers only; Redis Lua scripts are not executed (no Redis / no Lua binding used).')
+claim('C20', 'E2', 'exhaustive enumeration of map operation histories (key modes, CAS, versions, idempotency, TTL sweeps, clear, reads; depth-bounded) on the real Memory map broker against a map + list model',
+      'Every history (every prefix is its own execution) up to depth 3-6 per variant family; results, suppression reasons in the documented order, broadcasts, state and stream must equal the model.',
+      'Bare map hub on the virtual clock; stream TTL / meta TTL daemons not part of this harness.')
+claim('C21', 'E2', 'exhaustive enumeration of key sets x score assignments x page sizes x directions on the real Memory map broker pagination',
+      'Every subset of a 5-key universe with every score assignment (incl. ties and int64 extremes), page sizes 1-6 and unlimited, asc/desc/unordered, direct and churned builds; pages must enumerate every key exactly once in order and make progress.',
+      'Memory map broker only.')
+claim('C24', 'E1', 'stateless DFS over interleavings of the expiry sweep (two phases) with publish/remove/keep-alive of the same key on the virtual clock, plus timer-order exploration of the cleanup daemons',
+      'Every interleaving up to preemption bound 3-5 at clock positions just before/at/after the deadline; results and broadcasts must be serialisable and every surviving key must be removed exactly once at its own deadline.',
+      'mapHub driven directly; KeyTTL 1-2 s.')
+claim('C27', 'E2', 'exhaustive enumeration of option subsets x targeting modes of Node.Subscribe/Unsubscribe/Disconnect/Refresh with the target connection on the calling node vs on another node (loop-back controller)',
+      'Every option subset up to size 3-4 and every targeting mode; resulting channel context, pushes and disconnects must be equal in both placements.',
+      'Two in-process nodes joined by a loop-back Controller double.')
+claim('C28', 'E2', 'exhaustive enumeration of targeting modes x subscription configurations for Node.Unsubscribe(user, "")',
+      'Every targeting mode x 27 subscription configurations x 2 connections; afterwards no channel may remain and every former channel must have had its callback, leave, presence removal and unsubscribe push.',
+      'Single node and loop-back remote node.')
+claim('C29', 'E2', 'exhaustive enumeration of frame sequences (length <= 2-3 over a 47-49 frame alphabet), every truncation, header bit products and read limits on the real websocket reader against an independent RFC 6455/7692 decoder',
+      'Every sequence/truncation/configuration; same data messages as the reference, every protocol violation answered with an error and a 1002 close frame, limits with 1009, no panic.',
+      'Real clock (1 s write deadlines): a failing case is re-run and reported only if it repeats; data-message UTF-8 not part of the contract.')
+claim('C30', 'E2', 'exhaustive enumeration of write APIs x boundary sizes x buffer sizes x compression levels x sides, and message pairs/triples, through the real websocket writer and reader plus an independent wire decoder',
+      'Every listed combination; wire bytes must be valid frames decoding to the written messages and a peer Conn must read the same sequence.',
+      'In-memory net.Conn; sizes around every internal boundary rather than all sizes (thorough: every size up to 2*buf+40).')
+claim('C31', 'E2', 'exhaustive enumeration of upgrade header combinations, received close frames (every code, reason classes), close event sequences and websocketTransport.Close codes x reason lengths on the real code against reference predicates',
+      'Full products of the listed header/code/reason domains; acceptance, accept key, negotiated values, close frame presence/content and first-close-wins recording must match the references.',
+      'Harness ResponseWriter/Hijacker; real clock with stall re-run guard.')
+claim('C32', 'E2', 'exhaustive enumeration of JSON payload texts (length <= 4-6 over a structural alphabet incl. CR/LF) and binary payloads through the real SSE and HTTP-stream handlers against reference EventSource / NDJSON / varint parsers',
+      'Every payload and batch in the domain is published to a connection served by the real ServeHTTP; the reference parser must see exactly one record per message decoding to the same message.',
+      'Handlers run under the scheduler with a harness ResponseWriter; net/http itself is not in the loop.')
+
 NA = {
  'C18': 'needs a Redis server (or faithful emulator) to execute the Redis broker; none exists in the sealed sandbox, so Redis-vs-Memory agreement cannot be explored',
  'C23': 'needs a Redis server (or faithful emulator) to execute the Redis map broker; none exists in the sealed sandbox',
